@@ -336,33 +336,52 @@ class G:
         return [self.dummy(h), self.dummy(g)] + self.exit_wrap(inner) + self.observe([CALL(h), CALL(g)])
 
     def t_deep(self):
-        """capture through several function levels (index chain through intermediate functions)"""
+        """capture through several function levels (index chain through intermediate functions); the innermost function
+        mixes variables declared at different levels, so its descriptors mix (slot, is_local) with (index, not local)"""
         r = self.rng
         levels = r.randint(2, 4)
         self.tags.add("levels:%d" % levels)
         x, y = self.fresh(), self.fresh()
         fs = [self.fresh() for _ in range(levels)]
-        # innermost function body
-        body = [("assign", x, ADD(V(x), L(1))), ("return", ADD(V(x), V(y)))]
-        params = []
+        params = [[self.fresh()] if r.random() < 0.4 else [] for _ in range(levels)]
+        mids = [self.fresh() for _ in range(levels - 1)]          # a local of every function that contains another one
+        # innermost body: x is written; a random selection of the other visible variables is read, in random order
+        pool = [y] + mids + [p for ps in params for p in ps]
+        r.shuffle(pool)
+        used = pool[:r.randint(1, len(pool))]
+        if any(m in used for m in mids):
+            self.tags.add("mixed_local_and_inherited_descriptors")
+        if any(p in used for ps in params for p in ps):
+            self.tags.add("param_capture")
+        e = V(x)
+        order = used[:]
+        if r.random() < 0.5:
+            order.insert(r.randint(0, len(order)), x)
+            e = V(order[0])
+            for z in order[1:]:
+                e = ADD(e, V(z))
+        else:
+            for z in order:
+                e = ADD(e, V(z))
+        body = [("assign", x, ADD(V(x), L(1))), ("return", e)]
+        if r.random() < 0.5 and used:
+            body.insert(0, ("print", V(used[-1])))                 # first mention decides the upvalue index
+        inner_def = None
         for d in range(levels - 1, -1, -1):
-            f = fs[d]
-            ps = [self.fresh()] if r.random() < 0.4 else []
-            pre = []
-            if r.random() < 0.5:
-                pre.append(("decl", self.fresh(), self.lit()))          # shifts slots
-            if r.random() < 0.4:
-                pre.append(("assign", y if r.random() < 0.5 else x, ADD(V(y), L(1))))   # intermediate level uses it too
-                self.tags.add("intermediate_uses_var")
-            if ps and d == levels - 1:
-                body = [("assign", x, ADD(V(x), V(ps[0])))] + body[1:]
-                self.tags.add("param_capture")
+            f, ps = fs[d], params[d]
             if d == levels - 1:
-                fbody = pre + body
+                fbody = body
             else:
-                fbody = pre + [inner_def, ("return", V(fs[d + 1]))]
+                pre = [("decl", mids[d], L(1000 * (d + 1)))]
+                if r.random() < 0.4:
+                    pre.insert(0, ("decl", self.fresh(), self.lit()))      # shifts slots
+                if r.random() < 0.4:
+                    w = y if r.random() < 0.5 else x
+                    pre.append(("assign", w, ADD(V(w), L(1))))             # an intermediate level uses the variable too
+                    self.tags.add("intermediate_uses_var")
+                post = [("assign", mids[d], ADD(V(mids[d]), L(1)))] if r.random() < 0.5 else []
+                fbody = pre + [inner_def] + post + [("return", V(fs[d + 1]))]
             inner_def = ("fun", f, ps, fbody) if r.random() < 0.6 else ("lam", f, ps, fbody)
-            params.insert(0, ps)
         h = self.fresh()
         chain = []
         cur = fs[0]
